@@ -50,6 +50,86 @@ return D, b, B, m, n, s, c_i, c_o, p
 """
 
 
+# reference texts of the three CPU functions: used only to *name* the locals the rules below talk about (alpha.align); the rules
+# themselves judge the analysed function, never this text
+REF_NAMES = {
+    "_convolve": """
+def _convolve(data, filt, mode="full", strides=None, multi_channel=False):
+    D, b, B, m, n, s, c_i, c_o, p = _get_convolve_params(data.shape, filt.shape, mode, strides, multi_channel)
+    data = data.reshape((B, c_i) + m)
+    filt = filt.reshape((c_o, c_i) + n)
+    output = np.zeros((B, c_o) + p, dtype=data.dtype)
+    slc = tuple(slice(None, None, s_d) for s_d in s)
+    for k in range(B):
+        for j in range(c_o):
+            for i in range(c_i):
+                output[k, j] += signal.convolve(data[k, i], filt[j, i], mode=mode)[slc]
+    if multi_channel:
+        output = output.reshape(b + (c_o,) + p)
+    else:
+        output = output.reshape(b + p)
+    return output
+""",
+    "_convolve_data_adjoint": """
+def _convolve_data_adjoint(output, filt, data_shape, mode="full", strides=None, multi_channel=False):
+    D, b, B, m, n, s, c_i, c_o, p = _get_convolve_params(data_shape, filt.shape, mode, strides, multi_channel)
+    output = output.reshape((B, c_o) + p)
+    filt = filt.reshape((c_o, c_i) + n)
+    data = np.zeros((B, c_i) + m, dtype=output.dtype)
+    slc = tuple(slice(None, None, s_d) for s_d in s)
+    if mode == "full":
+        output_kj = np.zeros([m_d + n_d - 1 for m_d, n_d in zip(m, n)], dtype=output.dtype)
+        adjoint_mode = "valid"
+    elif mode == "valid":
+        output_kj = np.zeros([max(m_d, n_d) - min(m_d, n_d) + 1 for m_d, n_d in zip(m, n)], dtype=output.dtype)
+        if all(m_d >= n_d for m_d, n_d in zip(m, n)):
+            adjoint_mode = "full"
+        else:
+            adjoint_mode = "valid"
+    for k in range(B):
+        for j in range(c_o):
+            for i in range(c_i):
+                output_kj[slc] = output[k, j]
+                data[k, i] += signal.correlate(output_kj, filt[j, i], mode=adjoint_mode)
+    data = data.reshape(data_shape)
+    return data
+""",
+    "_convolve_filter_adjoint": """
+def _convolve_filter_adjoint(output, data, filt_shape, mode="full", strides=None, multi_channel=False):
+    D, b, B, m, n, s, c_i, c_o, p = _get_convolve_params(data.shape, filt_shape, mode, strides, multi_channel)
+    data = data.reshape((B, c_i) + m)
+    output = output.reshape((B, c_o) + p)
+    slc = tuple(slice(None, None, s_d) for s_d in s)
+    if mode == "full":
+        output_kj = np.zeros([m_d + n_d - 1 for m_d, n_d in zip(m, n)], dtype=output.dtype)
+        adjoint_mode = "valid"
+    elif mode == "valid":
+        output_kj = np.zeros([max(m_d, n_d) - min(m_d, n_d) + 1 for m_d, n_d in zip(m, n)], dtype=output.dtype)
+        if all(m_d >= n_d for m_d, n_d in zip(m, n)):
+            adjoint_mode = "valid"
+        else:
+            adjoint_mode = "full"
+    filt = np.zeros((c_o, c_i) + n, dtype=output.dtype)
+    for k in range(B):
+        for j in range(c_o):
+            for i in range(c_i):
+                output_kj[slc] = output[k, j]
+                filt[j, i] += signal.correlate(output_kj, data[k, i], mode=adjoint_mode)
+    filt = filt.reshape(filt_shape)
+    return filt
+""",
+}
+
+
+def _aligned(M, qual):
+    """the analysed function read through the renaming of its locals onto the names the rules use"""
+    from ..alpha import align
+    from ..model import Func
+    f = M.func(qual)
+    node, _ = align(f.node, REF_NAMES[f.name].strip())
+    return Func(f.qual, node, f.mod, f.cls, f.parent)
+
+
 def check(run, M, tier):
     run.rule("V1", "every _get_convolve_params call passes (data-side shape, filter-side shape) in this order")
     run.rule("V2", "_get_convolve_params equals its documented form; output shape b + (c_o,) + p / b + p at all producers; adjoints return reshape(requested shape)")
@@ -66,8 +146,8 @@ def check(run, M, tier):
         if asg and all(isinstance(a_.value, ast.Call) and unparse(a_.value.func) == "tuple" or (isinstance(a_.value, ast.BinOp) and isinstance(a_.value.left, ast.Tuple)) for a_ in asg):
             tup.add(i_)
     _vn.SEQ_ITEMS["fn:sigpy.conv._get_convolve_params"] = tup
-    if names != "D b B m n s c_i c_o p".split():
-        raise Unrecognised("_get_convolve_params returns %s" % names, ret)
+    if len(names) != 9:
+        raise Unrecognised("_get_convolve_params returns %d items (%s); the rules know the 9-tuple (D, b, B, m, n, s, c_i, c_o, p)" % (len(names), names), ret)
     # ---- V1
     sites = []
     for q, f in sorted(M.funcs.items()):
@@ -131,9 +211,9 @@ def check(run, M, tier):
                   % (cname, _show(shp), mc, "b + (c_o,) + p" if mc else "b + p"), stmt="V2:shape:%s:%s" % (cname, mc))
     run.floor("V2", 8, len(prods), "operator shape producers")
     # ---- V3 / V4 on the three CPU functions
-    fwd = M.func("sigpy.conv._convolve")
-    da = M.func("sigpy.conv._convolve_data_adjoint")
-    fa = M.func("sigpy.conv._convolve_filter_adjoint")
+    fwd = _aligned(M, "sigpy.conv._convolve")
+    da = _aligned(M, "sigpy.conv._convolve_data_adjoint")
+    fa = _aligned(M, "sigpy.conv._convolve_filter_adjoint")
     table = {"data": {("full", None): "valid", ("valid", True): "full", ("valid", False): "valid"},
              "filt": {("full", None): "valid", ("valid", True): "valid", ("valid", False): "full"}}
     for f, which in ((da, "data"), (fa, "filt")):
